@@ -365,6 +365,63 @@ def _splice_await(host, call_bb, ctor, cor, tymap):
     return True
 
 
+def _tail_self_calls_to_loops(f):
+    """A helper that ends by calling itself (`park(); return self.park_until_awoken()`) is the loop it replaced: the tail call becomes an
+    assignment of the arguments to the parameters and a jump to the entry.  Only for calls whose result is returned as it is, through a
+    chain of gotos that does nothing but end storage; anything else is left alone (and the recursion is then not followed)."""
+    name = f['name']
+    nargs = f['arg_count']
+    done_any = False
+    for bi, b in enumerate(f['blocks']):
+        t = b['term']
+        if not t or t['k'] != 'call' or b['cleanup'] or t['func'].get('fn') != name or t.get('rk') == 'virtual' or t['target'] is None:
+            continue
+        if len(t['args']) != nargs or t['dest']['p']:
+            continue
+        # the result goes straight to the return place
+        cur, ok_, d = t['target'], True, t['dest']['l']
+        for _ in range(12):
+            cb = f['blocks'][cur]
+            for s_ in cb['stmts']:
+                if s_['k'] in ('dead', 'live'):
+                    continue
+                if s_['k'] == 'assign' and not s_['pl']['p'] and s_['pl']['l'] == 0 and s_['rv']['k'] == 'use' and s_['rv']['op']['k'] in ('move', 'copy') \
+                        and not s_['rv']['op']['pl']['p'] and s_['rv']['op']['pl']['l'] == d:
+                    d = 0
+                    continue
+                ok_ = False
+            ct = cb['term']
+            if not ok_ or ct is None:
+                ok_ = False
+                break
+            if ct['k'] == 'return':
+                break
+            if ct['k'] != 'goto':
+                ok_ = False
+                break
+            cur = ct['target']
+        else:
+            ok_ = False
+        if not ok_ or d != 0:
+            continue
+        # arguments: a parameter may only be passed in its own position
+        clash = False
+        for i, a in enumerate(t['args']):
+            if a['k'] in ('copy', 'move') and 1 <= a['pl']['l'] <= nargs and a['pl']['l'] != i + 1:
+                clash = True
+        if clash:
+            continue
+        pre = []
+        for i, a in enumerate(t['args']):
+            if a['k'] in ('copy', 'move') and not a['pl']['p'] and a['pl']['l'] == i + 1:
+                continue
+            pre.append({'k': 'assign', 'pl': {'l': i + 1, 'p': [], 't': '_%d' % (i + 1), 'ty': f['locals'][i + 1]['ty']}, 'rv': {'k': 'use', 'op': a}, 'sp': t['sp']})
+        b['stmts'] = b['stmts'] + pre
+        b['term'] = {'k': 'goto', 'target': 0, 'sp': t['sp'], 'tail_self_call': name}
+        done_any = True
+    return done_any
+
+
 def flatten(j):
     """Returns the fact dict with new helper functions inlined at their in-crate call sites; marks them `helper`."""
     known = known_fns()
@@ -391,6 +448,8 @@ def flatten(j):
         if name in done:
             return done[name]
         f = copy.deepcopy(fns[name])
+        if name in helpers:
+            _tail_self_calls_to_loops(f)
         changed = True
         rounds = 0
         while changed and rounds < 50 and len(f['blocks']) < MAX_BLOCKS:
